@@ -14,7 +14,8 @@ def describe(tier):
                  "dense), both ways, and != returns exactly (not ==) without raising; after the search all pairs of reached states inside each shape bucket (neighbour pairs "
                  "where a bucket is large: same dense with different common, same common with dense differing in one cell, reflexive pairs with opposite insertion order) "
                  "satisfy a == b iff the triples coincide; comparison with non-indexes is False. Plus (a) for from_array with the common omitted over every small array x "
-                 "mapping (none, permutation, two many-to-one, all-to-one) x counts (None, exact)." % d["rule"][:160])
+                 "mapping (none, permutation, two many-to-one, all-to-one) x counts (None, exact), and for shift_common()/filtered/append/collapsed on every array of the larger shapes "
+                 "(3,2), (4,2), (2,3), (5,), (4,) that the quick state graph does not contain." % d["rule"][:160])
     return d
 
 
@@ -60,8 +61,74 @@ def from_array_family(res, tier):
     return viol, {"from_array_option_cases": n}
 
 
+def normalisation_family(res, tier):
+    """C15a on shapes beyond the quick state graph: every array of shape (3,2), (4,2), (2,3), (3,3)* over {0,1} (and (3,2) over {0,1,2}) x every common:
+    shift_common(), filtered(every mask), append(every split into top/bottom with every pair of commons), collapsed: the library-chosen common must be
+    a most frequent value of the result (whose dense content must be right)."""
+    import itertools
+
+    import numpy
+
+    from .. import models as M
+
+    viol = []
+    n = 0
+
+    def bad(site, opd, detail):
+        viol.append({"property": "C15", "site": site, "op": opd, "detail": detail, "state": hist.key_from_dense(numpy.zeros((0,), dtype=numpy.int64), 0), "depth": 0})
+
+    def chk(idx, dense, site, opd):
+        nonlocal n
+        n += 1
+        try:
+            got = M.read_dense(idx)
+        except Exception:
+            return  # malformed results are C07's business
+        if got.tolist() != dense.tolist():
+            return  # wrong content is C06's business
+        if not hist.most_frequent_ok(dense, idx.common):
+            bad(site, opd, "library chose common %r for %r" % (idx.common, dense.tolist()))
+
+    spaces = [((3, 2), (0, 1)), ((4, 2), (0, 1)), ((2, 3), (0, 1)), ((3, 2), (0, 1, 2)), ((5,), (0, 1)), ((4,), (0, 1, 2))]
+    if tier == "thorough":
+        spaces += [((3, 3), (0, 1)), ((5, 2), (0, 1)), ((6,), (0, 1, 2))]
+    for shape, vals in spaces:
+        for a in M.all_arrays(shape, vals):
+            for c0 in (0, 1, 2, 3):
+                opd0 = {"op": "normalise", "array": a.tolist(), "common": c0}
+                try:
+                    ix = M.build_index(a, c0)
+                    ix.shift_common()
+                    chk(ix, a, "shift_common:common-not-most-frequent", dict(opd0, step="shift_common()"))
+                    for bits in itertools.product((False, True), repeat=shape[0]):
+                        mask = numpy.array(bits, dtype=bool)
+                        r = M.build_index(a, c0).filtered(mask, int(mask.sum()))
+                        chk(r, a[mask], "filtered:common-not-most-frequent", dict(opd0, step="filtered", mask=[bool(b) for b in bits]))
+                    if c0 < 2:
+                        for k in range(0, shape[0] + 1):
+                            for c1 in (0, 1, 3):
+                                top = M.build_index(a[:k], c0)
+                                top.append(M.build_index(a[k:], c1))
+                                chk(top, a, "append:common-not-most-frequent", dict(opd0, step="append", split=k, other_common=c1))
+                    if len(shape) == 2 and c0 < 3:
+                        for prec in ((0, 1), (1, 0), (1, 2, 0), (2, 0)):
+                            r = M.build_index(a, c0).collapsed(list(prec))
+                            exp = numpy.array([next((p for p in prec if p in set(int(x) for x in a[i])), prec[-1]) for i in range(shape[0])], dtype=numpy.int64)
+                            chk(r, exp, "collapsed:common-not-most-frequent", dict(opd0, step="collapsed", precedence=list(prec)))
+                except Exception as e:  # noqa
+                    continue  # exceptions are C06's business
+    return viol, {"normalisation_cases_on_larger_shapes": n}
+
+
+def extras(res, tier):
+    v1, c1 = from_array_family(res, tier)
+    v2, c2 = normalisation_family(res, tier)
+    c1.update(c2)
+    return v1 + v2, c1
+
+
 def main(tier, all_violations=False, t0=None):
-    return histprop.run(__import__("vf.props.c15", fromlist=["x"]), tier, all_violations, t0, extra=from_array_family)
+    return histprop.run(__import__("vf.props.c15", fromlist=["x"]), tier, all_violations, t0, extra=extras)
 
 
 def replay(case, site=None):
